@@ -520,19 +520,32 @@ func gitCliRun(repo *ggen.Repo, c CliCase) []report {
 		return canonCommits(msgs)
 	})
 	// -b prints four fixed rows, -o appends the author rows to the same table
-	out = r.coca(repo.Dir, env, append([]string{"git", "-b", "-o"}, cut...)...)
+	// -a (only with the option variants: first version of the check did not run it) appends the
+	// code-age rows (name, months since the first commit): the months depend on the clock, the
+	// names shown - all of them, or the N oldest after the cut - are a collection that does not
+	args := []string{"git", "-b", "-o"}
+	if c.GitSize > 0 {
+		args = []string{"git", "-b", "-a", "-o"}
+	}
+	out = r.coca(repo.Dir, env, append(args, cut...)...)
 	rows = lastTableBody(out)
-	var basic []string
+	var basic, aged []string
 	var authors [][]string
 	for i, row := range rows {
-		if i < 4 {
+		switch {
+		case i < 4:
 			basic = append(basic, strings.Join(row, " ; "))
-		} else {
+		case len(row) == 2:
+			aged = append(aged, row[0])
+		default:
 			authors = append(authors, row)
 		}
 	}
 	r.add("git -b/stdout", out, strings.Join(basic, "\n"))
 	r.add("git -o/stdout", out, rowsSortedBy(authors, 1))
+	if c.GitSize > 0 {
+		r.add("git -a/stdout names", strings.Join(aged, "\n"), multiset(aged))
+	}
 	return r.reports
 }
 
